@@ -25,7 +25,7 @@ from ..diff_format import (
 from ..diff_utils import as_dict_based_diff
 from ..diffing.notebooks import notebook_config
 from ..patching import patch
-from ..utils import star_path, Strategies
+from ..utils import star_path, Strategies, json_equal
 
 
 # =============================================================================
@@ -245,7 +245,7 @@ def _merge_dicts(base, local_diff, remote_diff, path, parent_decisions, strategi
             # Note that this means the below cases always have the same op
             # (5) Conflict: edited in different ways
             decisions.conflict(path, [ld], [rd], item_strategy)
-        elif ld == rd:
+        elif json_equal(ld, rd):
             # If inserting/replacing/patching produces the same value, just use
             # it
             decisions.agreement(path, ld, rd)
@@ -489,7 +489,7 @@ def _merge_lists(base, local_diff, remote_diff, path, parent_decisions, strategi
             decisions.onesided(path, d0, d1)
 
         # Exactly the same modifications
-        elif d0 == d1:
+        elif json_equal(d0, d1):
             decisions.agreement(path, d0, d1)
 
         # Should always agree above because of chunking
@@ -535,7 +535,7 @@ def _merge_lists(base, local_diff, remote_diff, path, parent_decisions, strategi
                 decisions.onesided(path, a0, a1)
 
             # Then deal with patches and/or removals
-            if p0 == p1:
+            if json_equal(p0, p1):
                 decisions.agreement(path, p0, p1)
             elif pchunktype == "P/P":
                 # Otherwise recurse and pass on unresolved conflicts
